@@ -211,3 +211,249 @@ Proof.
 Qed.
 
 End Wqf.
+
+(* ================= the record with a replaced path, query and fragment (base with authority) ================= *)
+Definition auth_path_url (b : url) (T : list N) (q f : option (list N)) : url :=
+  let pre := nfirstn (path_start b) (ser b) in
+  mkUrl ((pre ++ T) ++ qf_text q f) (scheme_end b) (username_end b) (host_start b) (host_end b) (hosti b) (port b)
+        (path_start b) (qf_qs (nlen (pre ++ T)) q) (qf_fs (nlen (pre ++ T)) q f).
+
+Lemma auth_path_record dbg b T q f :
+  wf_b b = true -> has_authority_b b = true -> forallb no_qh T = true -> (T = [] \/ exists r, T = 47 :: r) ->
+  match q with Some Q => forallb no_h Q = true | None => True end ->
+  wf_b (auth_path_url b T q f) = true /\ same_front dbg b (auth_path_url b T q f) /\ path (auth_path_url b T q f) = Some T
+  /\ query dbg (auth_path_url b T q f) = Some q /\ fragment dbg (auth_path_url b T q f) = Some f.
+Proof.
+  intros W Ha HT1 HT2 Hq. set (pre := nfirstn (path_start b) (ser b)).
+  destruct (without_query_spec dbg b W) as (W1 & SF1 & SM1 & P1 & Eq1 & Ef1 & Es1 & _).
+  set (u1 := without_query b) in *.
+  pose proof (wf_auth_facts b W Ha) as F.
+  pose proof (af_ue F) as B1. pose proof (af_hs F) as B2. pose proof (af_he F) as B3. pose proof (af_ps F) as B4.
+  pose proof (path_start_le_len b W) as B5.
+  assert (nfirstn (path_start b) (ser u1) = pre) as Hpre1 by (rewrite Es1; apply before_query_prefix; exact W).
+  assert (has_authority_b u1 = true) as Ha1.
+  { rewrite <- Ha. apply (has_authority_b_pre (path_start b)); [exact Hpre1 | lia | reflexivity]. }
+  pose proof (wp_wf u1 T W1 Ha1 HT1 HT2) as W2. pose proof (wp_front dbg u1 T W1 Ha1 HT1 HT2) as SF2.
+  pose proof (wp_path u1 T W1 Ha1 HT1 HT2) as P2.
+  set (u2 := with_path u1 T) in *.
+  assert (u2 = mkUrl (pre ++ T) (scheme_end b) (username_end b) (host_start b) (host_end b) (hosti b) (port b)
+                     (path_start b) None None) as Eu2.
+  { unfold u2, with_path. change (path_start u1) with (path_start b). rewrite Hpre1.
+    assert (path_end u1 = nlen (ser u1)) as -> by (unfold path_end; rewrite Eq1, Ef1; reflexivity).
+    rewrite nskipn_all by lia. rewrite app_nil_r. rewrite Eq1, Ef1. reflexivity. }
+  assert (same_front dbg b u2) as SF by (eapply same_front_trans; eassumption).
+  assert (query_start u2 = None) as Eq2 by (rewrite Eu2; reflexivity).
+  assert (fragment_start u2 = None) as Ef2 by (rewrite Eu2; reflexivity).
+  destruct q as [Q|]; destruct f as [x|].
+  - destruct (add_query_step dbg u2 Q W2 Ef2 Eq2 Hq) as (W3 & SF3 & SM3 & P3 & Q3 & Ef3).
+    destruct (add_fragment_step dbg (add_query u2 Q) x W3 Ef3) as (W4 & SF4 & SM4 & P4 & Q4 & Qs4 & F4).
+    assert (auth_path_url b T _ _ = add_fragment (add_query u2 Q) x) as ->.
+    { rewrite Eu2. unfold auth_path_url, add_fragment, add_query, set_fragment_start, set_query_start, set_ser, qf_text, qf_qs, qf_fs, qf_qtext, qf_ftext.
+      cbn [ser scheme_end username_end host_start host_end hosti port path_start query_start fragment_start].
+      f_equal; [rewrite <- !app_assoc; reflexivity|]. f_equal. symmetry. apply nlen_app. }
+    split; [exact W4|]. split; [eapply same_front_trans; [exact SF|]; eapply same_front_trans; eassumption|].
+    split; [congruence|]. split; [congruence | exact F4].
+  - destruct (add_query_step dbg u2 Q W2 Ef2 Eq2 Hq) as (W3 & SF3 & SM3 & P3 & Q3 & Ef3).
+    assert (auth_path_url b T _ _ = add_query u2 Q) as ->.
+    { rewrite Eu2. unfold auth_path_url, add_query, set_query_start, set_ser, qf_text, qf_qs, qf_fs, qf_qtext, qf_ftext.
+      cbn [ser scheme_end username_end host_start host_end hosti port path_start query_start fragment_start].
+      rewrite app_nil_r. reflexivity. }
+    split; [exact W3|]. split; [eapply same_front_trans; eassumption|].
+    split; [congruence|]. split; [exact Q3|]. rewrite (fragment_eval dbg _ W3), Ef3. reflexivity.
+  - destruct (add_fragment_step dbg u2 x W2 Ef2) as (W4 & SF4 & SM4 & P4 & Q4 & Qs4 & F4).
+    assert (auth_path_url b T _ _ = add_fragment u2 x) as ->.
+    { rewrite Eu2. unfold auth_path_url, add_fragment, set_fragment_start, set_ser, qf_text, qf_qs, qf_fs, qf_qtext, qf_ftext.
+      cbn [ser scheme_end username_end host_start host_end hosti port path_start query_start fragment_start app].
+      change (nlen (@nil N)) with 0. rewrite N.add_0_r. reflexivity. }
+    split; [exact W4|]. split; [eapply same_front_trans; eassumption|].
+    split; [congruence|]. split; [|exact F4]. rewrite Q4. rewrite (query_eval dbg _ W2), Eq2. reflexivity.
+  - assert (auth_path_url b T _ _ = u2) as ->.
+    { rewrite Eu2. unfold auth_path_url, qf_text, qf_qs, qf_fs, qf_qtext, qf_ftext. cbn [app]. rewrite app_nil_r. reflexivity. }
+    split; [exact W2|]. split; [exact SF|]. split; [exact P2|].
+    split; [rewrite (query_eval dbg _ W2), Eq2; reflexivity | rewrite (fragment_eval dbg _ W2), Ef2; reflexivity].
+Qed.
+
+(* ================= the Standard's serializer, split at the path ================= *)
+(* the URL record the path arms end with: everything in front of the path from the base *)
+Definition rel_url (sb : spec_url) (P : list (list N)) (q f : option (list N)) : spec_url :=
+  mkSUrl (su_scheme sb) (su_username sb) (su_password sb) (su_host sb) (su_port sb) (SPList P) q f.
+
+Section Front.
+Variable dbg : bool.
+Variable shs : spec_host -> list N.
+
+Definition spec_front (u : spec_url) : list N :=
+  su_scheme u ++ [58]
+  ++ match su_host u with
+     | Some h =>
+         [47; 47]
+         ++ (if includes_credentials u then
+               su_username u
+               ++ (if negb (list_eqb (su_password u) []) then 58 :: su_password u else [])
+               ++ [64]
+             else [])
+         ++ shs h
+         ++ match su_port u with Some p => 58 :: serialize_integer p | None => [] end
+     | None =>
+         match su_path u with
+         | SPList (p0 :: _ :: _) => if list_eqb p0 [] then [47; 46] else []
+         | _ => []
+         end
+     end.
+
+Lemma serialize_url_front u excl :
+  serialize_url shs u excl
+  = spec_front u ++ serialize_path u ++ qf_qtext (su_query u)
+    ++ (if excl then [] else qf_ftext (su_fragment u)).
+Proof. unfold serialize_url, spec_front, qf_qtext, qf_ftext. rewrite <- !app_assoc. reflexivity. Qed.
+
+Lemma before_query_path_end b : wf_b b = true -> b_before_query b = nfirstn (path_end b) (ser b).
+Proof.
+  intros W. unfold b_before_query, path_end.
+  destruct (query_start b); [reflexivity|]. destruct (fragment_start b); [reflexivity|].
+  symmetry. apply nfirstn_all. lia.
+Qed.
+
+(* the serialization of a related base in front of its path is the Standard's *)
+Lemma related_pre b sb : related dbg shs b sb ->
+  b_before_query b = nfirstn (path_start b) (ser b) ++ serialize_path sb
+  /\ nfirstn (path_start b) (ser b) = spec_front sb.
+Proof.
+  intros R. pose proof (rel_wf _ _ _ _ R) as W. pose proof (rel_api _ _ _ _ R) as A.
+  rewrite (api_of_model_eval dbg b W) in A. unfold spec_api_list in A.
+  injection A as _ _ _ _ _ _ _ E8 _ _. cbn [pidx] in E8. fold (path_end b) in E8.
+  destruct (wf_ps_le_path_end b W) as [L1 L2].
+  assert (forall k, piece b 0 k = nfirstn k (ser b)) as P0.
+  { intros k. unfold piece. rewrite N.sub_0_r, nskipn_0. reflexivity. }
+  assert (b_before_query b = nfirstn (path_start b) (ser b) ++ serialize_path sb) as E.
+  { rewrite (before_query_path_end b W). rewrite <- !P0.
+    rewrite <- (piece_cat b 0 (path_start b) (path_end b)) by lia. rewrite E8. reflexivity. }
+  split; [exact E|].
+  pose proof (rel_bq _ _ _ _ R) as Bq. rewrite serialize_url_front in Bq.
+  assert (spec_front (set_query sb None) = spec_front sb) as E1 by (destruct sb; reflexivity).
+  assert (serialize_path (set_query sb None) = serialize_path sb) as E2 by (destruct sb; reflexivity).
+  assert (su_query (set_query sb None) = None) as E3 by (destruct sb; reflexivity).
+  rewrite E1, E2, E3 in Bq. cbn [qf_qtext app] in Bq. rewrite app_nil_r in Bq.
+  rewrite E in Bq. apply app_inv_tail in Bq. exact Bq.
+Qed.
+
+Lemma nnth_nfirstn_lt l k i : i < k -> nnth (nfirstn k l) i = nnth l i.
+Proof.
+  intros H. apply (pre_nnth k l (nfirstn k l) i); [apply agree_pre_trunc | exact H].
+Qed.
+
+(* a base with authority has a host in the Standard's record, and conversely *)
+Lemma related_host_iff b sb : related dbg shs b sb ->
+  has_authority_b b = match su_host sb with Some _ => true | None => false end.
+Proof.
+  intros R. pose proof (rel_wf _ _ _ _ R) as W. destruct (related_pre b sb R) as [_ Epre].
+  destruct (related_scheme_colon dbg shs b sb R) as (_ & Ese & _).
+  pose proof (path_start_le_len b W) as Lps.
+  assert (nlen (spec_front sb) = path_start b) as Lf by (rewrite <- Epre; apply nlen_nfirstn; exact Lps).
+  destruct (has_authority_b b) eqn:Ha.
+  - destruct (su_host sb) as [h|] eqn:Eh; [reflexivity|]. exfalso.
+    pose proof (wf_auth_facts b W Ha) as F.
+    pose proof (af_ue F) as B1. pose proof (af_hs F) as B2. pose proof (af_he F) as B3. pose proof (af_ps F) as B4.
+    unfold has_authority_b in Ha. destruct (css_bytes _ _ Ha) as (_ & _ & C3).
+    rewrite <- (nnth_nfirstn_lt (ser b) (path_start b)) in C3 by lia. rewrite Epre in C3.
+    unfold spec_front in C3, Lf. rewrite Eh in C3, Lf. rewrite Ese in *.
+    destruct (su_path sb) as [o|[|p0 [|p1 pr]]]; try (rewrite nlen_app in Lf; unfold nlen in Lf at 2; cbn [length app] in Lf; lia).
+    destruct (list_eqb p0 []); [|rewrite nlen_app in Lf; unfold nlen in Lf at 2; cbn [length app] in Lf; lia].
+    rewrite nnth_app_ge in C3 by lia. replace (nlen (su_scheme sb) + 2 - nlen (su_scheme sb)) with 2 in C3 by lia.
+    discriminate C3.
+  - destruct (su_host sb) as [h|] eqn:Eh; [|reflexivity]. exfalso.
+    assert (exists X, spec_front sb = su_scheme sb ++ [58; 47; 47] ++ X) as [X EX].
+    { unfold spec_front. rewrite Eh. eexists. cbn [app]. reflexivity. }
+    assert (scheme_end b + 3 <= path_start b) as L3 by (rewrite <- Lf, EX, Ese; lenl).
+    assert (has_authority_b b = true) as Ha'; [|congruence].
+    unfold has_authority_b.
+    rewrite (pre_starts_with (path_start b) (nfirstn (path_start b) (ser b)) (ser b) s_css (scheme_end b)).
+    + rewrite Epre, EX, Ese, nskipn_app_len. reflexivity.
+    + apply agree_pre_sym. apply agree_pre_trunc.
+    + change (nlen s_css) with 3. exact L3.
+Qed.
+
+End Front.
+
+(* ================= the two result shapes are related to the Standard's record ================= *)
+Section Transport.
+Variable dbg : bool.
+Variable shs : spec_host -> list N.
+
+(* base with authority: the record with the replaced path *)
+Theorem related_auth_path b sb h Pn q f :
+  related dbg shs b sb -> is_special_scheme (su_scheme sb) = false -> su_host sb = Some h ->
+  forallb no_qh (flat_map (fun s => 47 :: s) Pn) = true -> Pn <> [] -> opt_clean T_QUERY q ->
+  related dbg shs (auth_path_url b (flat_map (fun s => 47 :: s) Pn) q f) (rel_url sb Pn q f).
+Proof.
+  intros R Hnsp Eh HT HPn Hq.
+  pose proof (rel_wf _ _ _ _ R) as W.
+  assert (has_authority_b b = true) as Ha by (rewrite (related_host_iff dbg shs b sb R), Eh; reflexivity).
+  set (T := flat_map (fun s => 47 :: s) Pn) in *.
+  assert (T = [] \/ exists r, T = 47 :: r) as HT2.
+  { right. unfold T. destruct Pn as [|p0 Pr]; [contradiction|]. eexists. reflexivity. }
+  assert (match q with Some Q => forallb no_h Q = true | None => True end) as Hq'.
+  { destruct q as [Q|]; [|exact I]. exact (clean_query_no_h STNotSpecial Q Hq). }
+  destruct (auth_path_record dbg b T q f W Ha HT HT2 Hq') as (W' & SF & Pth & Qy & Fr).
+  assert (ser (auth_path_url b T q f) = (nfirstn (path_start b) (ser b) ++ T) ++ qf_text q f) as EsU by reflexivity.
+  assert (query_start (auth_path_url b T q f) = qf_qs (nlen (nfirstn (path_start b) (ser b) ++ T)) q) as EqU by reflexivity.
+  assert (fragment_start (auth_path_url b T q f) = qf_fs (nlen (nfirstn (path_start b) (ser b) ++ T)) q f) as EfU by reflexivity.
+  assert (scheme_end (auth_path_url b T q f) = scheme_end b) as EseU by reflexivity.
+  set (U := auth_path_url b T q f) in *.
+  destruct SF as (S1 & S2 & S3 & S4 & S5).
+  destruct (accessors_reconcatenate dbg b W)
+    as (sch & un & pw & hs & pth & qb & fb & Es1 & Eun & Epw & Ehs & Ept & Eq & Ef & _).
+  pose proof (api_by_accessors dbg b W sch un pw hs pth qb fb Es1 Eun Epw Ehs Ept Eq Ef) as Ab.
+  assert (api_of_model dbg U = Some (api_of_parts (ser U) sch un pw hs (port U) T q f)) as Ab'.
+  { apply (api_by_accessors dbg _ W'); congruence. }
+  rewrite (rel_api _ _ _ _ R) in Ab. unfold api_of_parts, spec_api_list in Ab.
+  injection Ab as E1 E2 E3 E4 E5 E6 E7 E8 E9 E10.
+  destruct (related_pre dbg shs b sb R) as [_ Epre].
+  pose proof (path_start_le_len b W) as Lps.
+  set (pre := nfirstn (path_start b) (ser b)) in *.
+  assert (nlen pre = path_start b) as Lpre by (apply nlen_nfirstn; exact Lps).
+  assert (forall q' f', spec_front shs (rel_url sb Pn q' f') = pre) as EF.
+  { intros q' f'. rewrite Epre. unfold spec_front, includes_credentials, rel_url.
+    cbn [su_scheme su_host su_username su_password su_port]. rewrite Eh. reflexivity. }
+  pose proof (wf_auth_facts b W Ha) as F.
+  pose proof (af_ue F) as B1. pose proof (af_hs F) as B2. pose proof (af_he F) as B3. pose proof (af_ps F) as B4.
+  assert (agree_pre (path_start b) (ser b) (ser U)) as Pre.
+  { rewrite EsU, <- app_assoc. apply agree_pre_nfirstn. exact Lps. }
+  constructor.
+  - exact W'.
+  - rewrite Ab'. f_equal. unfold api_of_parts, spec_api_list. rewrite S5.
+    apply list10_eq; [ | symmetry; exact E2 | symmetry; exact E3 | symmetry; exact E4 | symmetry; exact E5
+                       | symmetry; exact E6 | symmetry; exact E7 | reflexivity | | ].
+    + rewrite EsU. unfold get_href. rewrite serialize_url_front, EF.
+      unfold rel_url, serialize_path. cbn [su_path su_query su_fragment]. fold T. unfold qf_text.
+      rewrite <- !app_assoc. reflexivity.
+    + destruct q as [[|a r]|]; reflexivity.
+    + destruct f as [[|a r]|]; reflexivity.
+  - (* before the fragment *)
+    rewrite serialize_url_front, EF. unfold rel_url, serialize_path. cbn [su_path su_query su_fragment]. fold T.
+    rewrite app_nil_r. unfold b_before_fragment. rewrite EfU, EsU. unfold qf_text.
+    destruct f as [y|]; cbn [qf_fs qf_ftext].
+    + rewrite <- nlen_app. rewrite app_assoc. rewrite nfirstn_app_exact. rewrite <- app_assoc. reflexivity.
+    + rewrite app_nil_r, <- app_assoc. reflexivity.
+  - (* before the query *)
+    rewrite serialize_url_front.
+    assert (set_query (rel_url sb Pn q f) None = rel_url sb Pn None f) as -> by reflexivity.
+    rewrite EF. unfold rel_url, serialize_path. cbn [su_path su_query su_fragment qf_qtext app]. fold T.
+    rewrite app_nil_r. unfold b_before_query. rewrite EqU, EfU, EsU. unfold qf_text.
+    destruct q as [x|]; destruct f as [y|]; cbn [qf_qs qf_fs qf_qtext qf_ftext].
+    + apply nfirstn_app_exact.
+    + apply nfirstn_app_exact.
+    + cbn [app]. rewrite nlen_nil, N.add_0_r. apply nfirstn_app_exact.
+    + cbn [app]. apply app_nil_r.
+  - (* cannot be a base *)
+    rewrite (cannot_be_a_base_eval _ W'). cbn [has_opaque_path su_path rel_url]. f_equal.
+    rewrite EseU. rewrite (pre_byte_eqb (path_start b) _ _ _ _ Pre) by lia.
+    unfold has_authority_b in Ha. destruct (css_bytes _ _ Ha) as (_ & C2 & _).
+    assert (byte_eqb (ser b) (scheme_end b + 1) 47 = true) as -> by (apply byte_eqb_true_iff; exact C2). reflexivity.
+  - (* scheme *)
+    transitivity (b_scheme b); [|exact (rel_sch _ _ _ _ R)]. unfold b_scheme. rewrite EseU.
+    apply (pre_firstn _ _ _ _ Pre). lia.
+  - split; [intros H; discriminate H|]. cbn [su_scheme rel_url]. intros H. rewrite H in Hnsp. discriminate Hnsp.
+Qed.
+
+End Transport.
